@@ -553,6 +553,12 @@ def call(f, *args, **kwargs):
                 return getattr(to_symseq(args[0]), f.__name__)(*args[1:], **kwargs)
             if owner in (list, tuple, dict, set, frozenset):
                 return f(*args, **kwargs)
+        if (args and not kwargs and all(isinstance(a, (SymInt, SymBool)) or not has_sym(a) for a in args)
+                and getattr(f, "__module__", None) in ("math", "builtins", "operator")):
+            # a C-level numeric function (math.log, pow, ...) without a model: concretise its integer arguments, i.e.
+            # fork over their feasible values on this path (bounded; more than 4096 values is "unsupported")
+            cargs = [a.concretize(4096) if isinstance(a, SymInt) else (bool(a) if isinstance(a, SymBool) else a) for a in args]
+            return f(*cargs)
         core.cur().unsupported("C function %s with a symbolic argument" %
                                (getattr(f, "__qualname__", None) or repr(f)))
     if isinstance(f, type):
